@@ -1,5 +1,6 @@
 #!/bin/sh
 # usage: tools/seedtest.sh <mutant id> <Cnn> [tier]  — applies seeded/<id>/patch.diff to a scratch worktree,
+# (VERIF_HOME=<clone of /verif> runs the check from that clone so that builders working in /verif are not disturbed)
 # confirms the 252-test baseline still passes, runs the check against it, removes the worktree.
 id=$1; prop=$2; tier=${3:-quick}
 wt=/tmp/seedwt-$id-$$
@@ -8,7 +9,7 @@ git -C /repo worktree add -q $wt HEAD || exit 2
 (cd /repo && git ls-files --others --exclude-standard | grep zz_verif_hooks | while read f; do cp /repo/$f $wt/$f; done)
 git -C $wt apply /verif/seeded/$id/patch.diff || { echo "PATCH DOES NOT APPLY"; git -C /repo worktree remove --force $wt; exit 2; }
 if [ -z "$SKIP_BASELINE" ]; then VERIF_REPO=$wt python3 /verif/tools/baseline.py | tail -3; fi
-cd /verif && VERIF_REPO=$wt ./check $prop $tier | cut -c1-400
+cd ${VERIF_HOME:-/verif} && VERIF_REPO=$wt ./check $prop $tier | cut -c1-400
 rc=$?
 git -C /repo worktree remove --force $wt
 git -C /repo worktree prune
